@@ -118,8 +118,16 @@ def programs(rng, tier):
                     d = mk_config("DOC%d" % k, "bool", prompt=Y, dep=e, defaults=[{"v": ["n"], "c": Y}])
                 ents.append(d)
             # one menu gated by a target condition, with an option inside
-            ents.append({"k": "menu", "title": "gated %s" % target, "dep": S("IDF_TARGET_CHIPB"), "visif": Y, "children": [mk_config("INMENU", "bool", prompt=Y, defaults=[{"v": ["y"], "c": Y}])]})
-            order = [["s", e["name"]] for e in ktree.walk(ents) if e["k"] == "config"]
+            # options defined twice, once under the target-gated menu and once outside it (both orders): each
+            # definition is reachable or not on its own
+            dup = lambda n: mk_config(n, "bool", prompt=Y, defaults=[{"v": ["y"], "c": Y}])  # noqa: E731
+            ents.append(dup("DUP_B"))
+            ents.append({"k": "menu", "title": "gated %s" % target, "dep": S("IDF_TARGET_CHIPB"), "visif": Y, "children": [mk_config("INMENU", "bool", prompt=Y, defaults=[{"v": ["y"], "c": Y}]), dup("DUP_A"), dup("DUP_B")]})
+            ents.append({"k": "menu", "title": "open %s" % target, "dep": Y, "visif": Y, "children": [dup("DUP_A")]})
+            order = []
+            for e in ktree.walk(ents):
+                if e["k"] == "config" and ["s", e["name"]] not in order:
+                    order.append(["s", e["name"]])
             out.append({"prog": ents, "ord": order, "vars": [dict(v) for v in vars_], "target": target})
     return out
 
